@@ -45,7 +45,7 @@ def make_callable(tid: str, nout: int, returns_none: bool = False):
 STATIC_VALUES = [0, 1, -3, 2.5, "s", "input0", None, (1, 2), [3, 4], {"k": 1}, True]
 
 
-def gen_jobspec(rng, max_tasks=16, shape=None, multi_edges=False, gpu=True, big_outputs=True, allow_none=False) -> dict:
+def gen_jobspec(rng, max_tasks=16, shape=None, multi_edges=False, gpu=True, big_outputs=True, allow_none=False, n_tasks=None) -> dict:
     """Returns {"tasks": {tid: {...}}, "edges": [...], "ext": [...], "shape": str}; tasks listed in topological order."""
     shape = shape or rng.choice(["layered", "layered", "triangular", "chain", "diamond", "wide", "components", "isolated", "empty", "fanin"])
     if shape == "empty":
@@ -56,6 +56,8 @@ def gen_jobspec(rng, max_tasks=16, shape=None, multi_edges=False, gpu=True, big_
         n = rng.randint(4, max(4, max_tasks))
     else:
         n = rng.randint(1, max_tasks)
+    if n_tasks is not None:
+        n = n_tasks
     tids = [f"t{i}" for i in range(n)]
     parents: dict[str, list[str]] = {t: [] for t in tids}
     if shape == "chain":
